@@ -90,9 +90,9 @@ func mid(x) {
   bad(y)
   return 1
 }
-p := 1
+p := 99999999999999999999999999999999999999
 try {
-  raise("Top", "d", [1])
+  raise("Top", "d", [1, p * p * p * p * p * p * p * p * p])
 } except e {
   q := 2
 }
@@ -126,14 +126,15 @@ type thread struct {
 }
 
 type session struct {
-	vs      parser.Scope
-	erp     *interpreter.ECALRuntimeProvider
-	dbg     util.ECALDebugger
-	threads []*thread
-	lastSrc *program
-	parsed  bool
-	stopped bool
-	dumpBuf []byte
+	vs       parser.Scope
+	erp      *interpreter.ECALRuntimeProvider
+	dbg      util.ECALDebugger
+	threads  []*thread
+	lastSrc  *program
+	parsed   bool
+	stopped  bool
+	dumpBuf  []byte
+	lastDump string
 }
 
 const maxActive = 2
@@ -249,19 +250,20 @@ func (s *session) dump() []gstate {
 	for {
 		n := runtime.Stack(s.dumpBuf, true)
 		if n < len(s.dumpBuf) {
-			return parseDump(s.dumpBuf[:n])
+			return parseDump(s.dumpBuf[:n], []byte(fmt.Sprintf("c16.(*session).threadMain(%p,", s)))
 		}
 		s.dumpBuf = make([]byte, 2*len(s.dumpBuf))
 	}
 }
 
 var (
-	markMain = []byte("c16.(*session).threadMain")
 	markDbg  = []byte("interpreter.(*ecalDebugger).")
 	markHold = []byte("c16.(*holdFunc).Run")
 )
 
-func parseDump(b []byte) []gstate {
+// parseDump returns the state of this session's program goroutines (the
+// receiver pointer printed in the threadMain frame identifies the session).
+func parseDump(b []byte, markMain []byte) []gstate {
 	var out []gstate
 	for _, blk := range bytes.Split(b, []byte("\n\n")) {
 		if !bytes.Contains(blk, markMain) {
@@ -282,9 +284,48 @@ func parseDump(b []byte) []gstate {
 	return out
 }
 
-func blocked(st string) bool {
-	switch st {
-	case "sync.Cond.Wait", "chan receive", "sync.Mutex.Lock", "sync.RWMutex.Lock", "sync.RWMutex.RLock", "semacquire":
+// where describes where this session's program goroutines are (diagnostics).
+func (s *session) where() string {
+	buf := make([]byte, 1<<20)
+	n := runtime.Stack(buf, true)
+	mark := []byte(fmt.Sprintf("c16.(*session).threadMain(%p,", s))
+	var out []string
+	for _, blk := range bytes.Split(buf[:n], []byte("\n\n")) {
+		if !bytes.Contains(blk, mark) {
+			continue
+		}
+		var fr []string
+		for _, l := range strings.Split(string(blk), "\n") {
+			if strings.HasPrefix(l, "\t") {
+				if i := strings.LastIndex(l, "/"); i >= 0 {
+					l = l[i+1:]
+				}
+				if j := strings.Index(l, " +0x"); j >= 0 {
+					l = l[:j]
+				}
+				fr = append(fr, l)
+			}
+			if len(fr) == 6 {
+				break
+			}
+		}
+		out = append(out, strings.SplitN(string(blk), "\n", 2)[0]+" "+strings.Join(fr, " < "))
+	}
+	return strings.Join(out, " || ")
+}
+
+// parked is true if the goroutine cannot move without the harness: it waits
+// on the debugger's condition, inside hold(), or for a lock (with every other
+// program thread parked and no command in flight nobody is left to release a
+// lock; the status probe reports that case). Other blocked states (e.g.
+// "semacquire" inside encoding/json's type cache) are transient.
+func (g gstate) parked() bool {
+	switch g.state {
+	case "sync.Cond.Wait":
+		return g.debugger
+	case "chan receive":
+		return g.hold
+	case "sync.Mutex.Lock", "sync.RWMutex.Lock", "sync.RWMutex.RLock":
 		return true
 	}
 	return false
@@ -313,11 +354,12 @@ func (s *session) quiesce() bool {
 		gs := s.dump()
 		ok := len(gs) == n
 		for _, g := range gs {
-			if !blocked(g.state) {
+			if !g.parked() {
 				ok = false
 			}
 		}
 		if ok {
+			s.lastDump = fmt.Sprintf("%+v", gs)
 			return true
 		}
 		if time.Now().After(deadline) {
@@ -591,7 +633,7 @@ func (s *session) finish() *hx.Failure {
 			for _, th := range s.active() {
 				ids = append(ids, fmt.Sprint(th.tid))
 			}
-			return hx.Failf("stuck-thread", "threads %v are parked but the debugger reports no suspended thread; status threads: %+v", ids, v)
+			return hx.Failf("stuck-thread", "threads %v are parked but the debugger reports no suspended thread; status threads: %+v; goroutines: %s; last dump %s", ids, v, s.where(), s.lastDump)
 		}
 	}
 	return hx.Failf("stuck-thread", "threads still suspended after 400 resume rounds")
@@ -602,12 +644,22 @@ func (s *session) finish() *hx.Failure {
 func (s *session) close() {
 	if len(s.active()) > 0 {
 		s.openHolds()
-		hx.Guard(func() { s.dbg.StopThreads(0) })
-		for _, th := range s.active() {
-			select {
-			case <-th.done:
-			case <-time.After(2 * time.Second):
-			}
+		for round := 0; round < 100 && s.quiesce() && len(s.active()) > 0; round++ {
+			hx.Guard(func() {
+				s.dbg.BreakOnStart(false)
+				s.dbg.BreakOnError(false)
+				if v, f := s.view(); f == nil {
+					for tid, tv := range v {
+						if tv.suspended {
+							s.dbg.Continue(tid, util.Resume)
+						}
+					}
+				}
+				s.dbg.StopThreads(0)
+			})
+		}
+		if len(s.active()) > 0 {
+			hx.E.Class("teardown.leaked-thread", 1)
 		}
 	}
 	s.erp.Cron.Stop()
